@@ -865,9 +865,8 @@ class SymEval:
         if isinstance(a, Opaque) or isinstance(b, Opaque):
             return Opaque('binop', a, b)
         if isinstance(op, ast.Add) and isinstance(a, (list, tuple)) and \
-                isinstance(b, (list, tuple)) and not (
-                    a and isinstance(a[0], (Rat,)) ):
-            return list(a) + list(b)
+                isinstance(b, (list, tuple)):
+            return type(a)(list(a) + list(b))      # Python sequences concatenate
         if isinstance(op, ast.Mult):
             # Python sequence repetition: [x] * 3, 3 * (x,)
             for s_, k_ in ((a, b), (b, a)):
